@@ -477,6 +477,60 @@ func (l *Layout) PutFileInPlace(d int, f *File) error {
 	return nil
 }
 
+// RewriteSameSizeSameTimes rewrites a regular valid Spec file in place with content of exactly the same size (the
+// name of its first device changes in its last character) and puts the file's previous modification time back
+// (what cp -p or rsync -t leave behind): size, inode and times say "unchanged", the content does not.
+func (l *Layout) RewriteSameSizeSameTimes(d int, name string) error {
+	dir := l.Pool[d]
+	f := dir.Files[name]
+	if f == nil || f.Kind != Valid || f.Link != "" || f.Spec == nil || len(f.Spec.Devices) == 0 {
+		return fmt.Errorf("%s is not a regular valid Spec file", name)
+	}
+	p := filepath.Join(l.Path(d), name)
+	st, err := os.Lstat(p)
+	if err != nil || !st.Mode().IsRegular() {
+		return fmt.Errorf("%s is not a regular file", name)
+	}
+	old := f.Spec.Devices[0].Name
+	if old == "" {
+		return fmt.Errorf("empty device name")
+	}
+	last := old[len(old)-1]
+	repl := byte('x')
+	if last == 'x' {
+		repl = 'y'
+	}
+	newName := old[:len(old)-1] + string(repl)
+	for _, dv := range f.Spec.Devices {
+		if dv.Name == newName {
+			return fmt.Errorf("device name taken")
+		}
+	}
+	var cp specs.Spec
+	b, _ := json.Marshal(f.Spec)
+	_ = json.Unmarshal(b, &cp)
+	cp.Devices[0].Name = newName
+	var data []byte
+	if strings.HasSuffix(name, ".json") {
+		data, _ = json.Marshal(&cp)
+	} else {
+		data = gen.EncodeYAML(gen.ToTree(&cp))
+	}
+	if len(data) != len(f.Data) {
+		return fmt.Errorf("size differs")
+	}
+	if err := os.WriteFile(p, data, 0o644); err != nil {
+		return err
+	}
+	if err := os.Chtimes(p, st.ModTime(), st.ModTime()); err != nil {
+		return err
+	}
+	nf := *f
+	nf.Spec, nf.Data = &cp, data
+	dir.Files[name] = &nf
+	return nil
+}
+
 // RemoveFile removes a file from pool directory d.
 func (l *Layout) RemoveFile(d int, name string) error {
 	if err := os.Remove(filepath.Join(l.Path(d), name)); err != nil {
